@@ -53,7 +53,8 @@ TRUSTED = ["Coq 8.16.1 kernel + vm_compute", "hand-written model coq/Model/Confi
            "PyYAML / tomli parsers (the tree after parsing is the model's input)", "pathlib.Path normalisation and glob",
            "netCDF4 (warm-start time, output files of the end-to-end runs)"]
 ASSUMPTIONS = ["file names are in pathlib normal form (a Path is represented by its string)",
-               "no YAML aliases (two sections are never the same object)",
+               "the model is a pure function of the parsed tree: YAML aliases (two mappings being one object) are "
+               "exercised by the generated files and must not matter; top-level sections are never aliased",
                "dictionary keys are strings; `version` floats lie in [1e-4, 1e16)",
                "normalize: the constructors' treatment of falsy arguments (x if x else default) is a table read "
                "from the constructors, in Coq and in the harness; `ncargs` is ignored (netCDF4.Dataset ignores "
@@ -129,15 +130,27 @@ def yflow(v, rng):
     return ystr(v, rng)
 
 
-def emit_yaml(tree, rng, indent=0, depth=0):
+def emit_yaml(tree, rng, indent=0, depth=0, anchors=None):
+    """Block/flow YAML written by hand.  In about half of the files a mapping that occurs a second time with
+    identical content is written as an alias of the first (`X: &a1 {...}` / `Y: *a1`, what yaml.dump does
+    for a dict referenced twice): the loader then returns ONE shared object for both, while the tree is the same."""
+    if depth == 0 and anchors is None:
+        anchors = {} if rng.random() < 0.55 else False
     out = []
     pad = " " * indent
     for k, v in tree.items():
         block = isinstance(v, dict) and v and set(v) != {"$dt"} and (depth == 0 or (depth < 3 and rng.random() < 0.5))
         if block:
-            out.append(f"{pad}{ystr(k, rng)}:\n" + emit_yaml(v, rng, indent + rng.choice([2, 4]), depth + 1))
+            out.append(f"{pad}{ystr(k, rng)}:\n" + emit_yaml(v, rng, indent + rng.choice([2, 4]), depth + 1, anchors))
         elif v is None and rng.random() < 0.5:
             out.append(f"{pad}{ystr(k, rng)}:\n")
+        elif anchors is not False and isinstance(v, dict) and v and set(v) != {"$dt"}:
+            key = json.dumps(v)
+            if key in anchors:
+                out.append(f"{pad}{ystr(k, rng)}: *{anchors[key]}\n")
+            else:
+                anchors[key] = f"a{len(anchors) + 1}"
+                out.append(f"{pad}{ystr(k, rng)}: &{anchors[key]} {yflow(v, rng)}\n")
         else:
             out.append(f"{pad}{ystr(k, rng)}: {yflow(v, rng)}\n")
     return "".join(out)
@@ -931,6 +944,10 @@ def gen_sim(rng, run):
     if not run and rng.random() < 0.2:
         rng.shuffle(inst)
     S["out_instance"] = [gen_outvar(rng, v, run) for v in inst]
+    if rng.random() < 0.6:  # X, Y (Z) with identical settings: candidates for a YAML anchor/alias
+        pos = [o for o in S["out_instance"] if o["name"] in ("X", "Y", "Z")][: rng.choice([2, 3])]
+        for o in pos[1:]:
+            o["attrs"] = [list(a) for a in pos[0]["attrs"]]
     S["out_particle"] = [gen_outvar(rng, v, run) for v in uniq(pv) if v in names and v not in IGNORED and rng.random() < 0.8]
     S["spell"] = {k: rng.random() < 0.5 for k in ("files", "ibm_legacy", "rtype", "min", "version")}
     return S
